@@ -12,6 +12,39 @@ from cirbo.core.circuit import Circuit, gate as G
 AIG_FORBIDDEN = {"XOR", "NXOR"}
 
 
+_LITERALS = None
+
+
+def source_literals():
+    """Identifier-like string literals of the generator modules (current source): used as *labels*
+    of operand gates, because the properties quantify over arbitrary host labels."""
+    global _LITERALS
+    if _LITERALS is None:
+        import ast
+        import glob
+        import os
+        import re
+
+        from vlib import env
+
+        found = []
+        for path in sorted(glob.glob(os.path.join(env.REPO, "cirbo", "synthesis", "generation", "**", "*.py"), recursive=True)):
+            try:
+                tree = ast.parse(open(path).read())
+            except SyntaxError:
+                continue
+            scopes = [n for n in ast.walk(tree) if isinstance(n, (ast.FunctionDef, ast.AsyncFunctionDef))]
+            scopes += [n for n in tree.body if isinstance(n, ast.Assign) and isinstance(n.value, ast.Constant)]
+            for scope in scopes:
+                doc = ast.get_docstring(scope) if isinstance(scope, ast.FunctionDef) else None
+                for node in ast.walk(scope):
+                    if isinstance(node, ast.Constant) and isinstance(node.value, str) and node.value != doc \
+                            and re.fullmatch(r"[A-Za-z_][A-Za-z0-9_]{1,24}", node.value) and node.value not in found:
+                        found.append(node.value)
+        _LITERALS = found
+    return _LITERALS
+
+
 class Host:
     """A circuit in which a generator is asked to build its gadget."""
 
@@ -23,6 +56,11 @@ class Host:
         if kind == "fresh":
             self.c = Circuit.bare_circuit(total, prefix="in")
             labs = list(self.c.inputs)
+        elif kind == "literal-labels":
+            lits = list(source_literals())
+            rnd.shuffle(lits)
+            labs = (lits + [f"lit{i}" for i in range(total)])[:total]
+            self.c = Circuit.bare_circuit_with_labels(labs)
         else:
             n_in = max(2, (total + 1) // 2)
             self.c = circgen.random_circuit(rnd, n_in, max(total, 3), pool=[G.AND, G.OR, G.XOR, G.NOT, G.NAND, G.GT],
